@@ -126,8 +126,12 @@ def code_for_string_token(name, value, location):
     assert len(value) >= 2
     left_quote = value[0]
     right_quote = value[-1]
-    assert left_quote in "\"'", "left_quote=%r" % left_quote
-    assert right_quote in "\"'", "right_quote=%r" % right_quote
+    if (left_quote not in "\"'") or (right_quote not in "\"'"):
+        # For example a string with a prefix like u'x'.
+        raise errors.InterfaceError(
+            "text for %s must be a single character between quotes but is: %s" % (name, _compat.text_repr(value)),
+            location,
+        )
 
     value_without_quotes = value[1:-1]
     if len(value_without_quotes) != 1:
